@@ -217,11 +217,39 @@ def _thorough_selftest(pid):
             if not ok: missed.append(os.path.basename(sd))
         finally:
             shutil.rmtree(d, ignore_errors=True)
+    # the other direction: every behaviour-preserving refactor of the corpus (mutants/benign.json + benign/*/patch.diff, produced independently of the rules)
+    # must leave this property's check silent
+    from concurrent.futures import ThreadPoolExecutor
+    bl = list(json.load(open(os.path.join(VERIF, "mutants", "benign.json"))))
+    for pd in sorted(glob.glob(os.path.join(VERIF, "benign", "*", "patch.diff"))):
+        bl.append({"id": os.path.basename(os.path.dirname(pd)), "patch": pd})
+    def _benign(m):
+        d, repo = selftest.make_scratch()
+        try:
+            try:
+                if "patch" in m:
+                    r = subprocess.run(["patch", "-s", "-p1", "-d", repo, "-i", m["patch"]], capture_output=True, text=True)
+                    if r.returncode: return m["id"], "PATCH-FAILED"
+                else:
+                    selftest.apply(repo, m)
+            except Exception as e:
+                return m["id"], "APPLY-FAILED"
+            env = dict(os.environ, RM_REPO=repo, RM_EVID=os.path.join(d, "ev"))
+            rr = subprocess.run([os.path.join(VERIF, "check"), pid], capture_output=True, text=True, env=env)
+            return m["id"], ("SILENT" if rr.returncode == 0 else f"ALARM(exit {rr.returncode})")
+        finally:
+            shutil.rmtree(d, ignore_errors=True)
+    res["benign"] = {}
+    with ThreadPoolExecutor(int(os.environ.get("RM_JOBS", "8"))) as ex:
+        for bid, st in ex.map(_benign, bl):
+            res["benign"][bid] = st
+            if st != "SILENT": missed.append("benign:" + bid)
+    print(f"{pid}: false-alarm self-test: {sum(1 for v in res['benign'].values() if v == 'SILENT')}/{len(res['benign'])} behaviour-preserving refactors leave the check silent")
     n_m = len(res["mutants"]); n_s = len(res["seeds"])
     print(f"{pid}: checker self-test on scratch copies: {n_m - len([x for x in missed if x in res['mutants']])}/{n_m} mutants and "
           f"{n_s - len([x for x in missed if x in res['seeds']])}/{n_s} seeded defects reported")
     if missed:
-        raise F.InfraError(f"checker self-test: not reported: {missed}")
+        raise F.InfraError(f"checker self-test: not reported / false alarm: {missed}")
     return {"checker_selftest": res}
 
 
